@@ -15,6 +15,7 @@ import (
 
 	"verifharness/fixtures"
 	"verifharness/gram"
+	"verifharness/lexgen"
 	"verifharness/vstat"
 )
 
@@ -28,6 +29,9 @@ type c15Case struct {
 	InputHex string        `json:"input_hex"`
 	Input    string        `json:"input,omitempty"`
 	Text     string        `json:"grammar_text,omitempty"`
+	// lexer-definition cases: a generated rule set and several inputs (hex) whose lexers are alive at the same time
+	RS        *lexgen.RuleSet `json:"rules,omitempty"`
+	InputsHex []string        `json:"inputs_hex,omitempty"`
 }
 
 // pue = parser under examination: the entry points of one parser, type-erased.
@@ -70,7 +74,8 @@ const c15Rule = "parsers over the default, stateful and mapped (Unquote/Upper) l
 	"and invalid inputs (samples, mutations, nested inputs of depth 1-60 for the Trace comparison), several filenames; oracle " +
 	"(differential): Parse from a reader (also a one-byte-at-a-time and a multi-part reader), ParseString, ParseBytes and " +
 	"ParseFromLexer(Upgrade(definition.Lex(...), elided types)) return deeply equal ASTs and identical error texts; Parser.Lex equals the " +
-	"tokens obtained by draining the parser's definition, and Lex/LexString/LexBytes of a definition yield identical streams; with " +
+	"tokens obtained by draining the parser's definition, and Lex/LexString/LexBytes of a definition yield identical streams, also when " +
+	"several lexers of the definition (ported example lexers, the parser's own, generated multi-state rule sets on different inputs) are alive and drained in turns, out of step; with " +
 	"Trace(w) the result is identical; with AllowTrailing the caller's PeekingLexer ends at the first token the " +
 	"reference parser did not consume (generated grammars); non-trivial = mapped lexer, or an error result, or trailing input; " +
 	"distinct by SHA-256 of the case"
@@ -106,6 +111,55 @@ func drainDef(def lexer.Definition, how, filename string, in []byte) ([]lexer.To
 	}
 	toks, err := lexer.ConsumeAll(l)
 	return toks, err, true
+}
+
+// drainInterleaved opens one lexer per available entry point on the same input and drains them in turns and out
+// of step (lexer i takes i+1 tokens per turn): live lexers of one definition must not influence each other.
+func drainInterleaved(def lexer.Definition, filename string, in []byte) (hows []string, toks [][]lexer.Token, errs []error) {
+	var ls []lexer.Lexer
+	open := func(how string, l lexer.Lexer, err error) {
+		hows = append(hows, how)
+		ls = append(ls, l)
+		toks = append(toks, nil)
+		errs = append(errs, err)
+	}
+	l, err := def.Lex(filename, bytes.NewReader(in))
+	open("reader", l, err)
+	if sd, ok := def.(lexer.StringDefinition); ok {
+		l, err := sd.LexString(filename, string(in))
+		open("string", l, err)
+	}
+	if bd, ok := def.(lexer.BytesDefinition); ok {
+		l, err := bd.LexBytes(filename, in)
+		open("bytes", l, err)
+	}
+	l, err = def.Lex(filename, bytes.NewReader(in))
+	open("reader#2", l, err)
+	done := make([]bool, len(ls))
+	for live := len(ls); live > 0; {
+		live = 0
+		for i, l := range ls {
+			if done[i] || errs[i] != nil || l == nil {
+				done[i] = true
+				continue
+			}
+			for k := 0; k <= i && !done[i]; k++ {
+				t, err := l.Next()
+				if err != nil {
+					errs[i], done[i] = err, true
+					break
+				}
+				toks[i] = append(toks[i], t)
+				if t.EOF() || len(toks[i]) > len(in)+2 {
+					done[i] = true
+				}
+			}
+			if !done[i] {
+				live++
+			}
+		}
+	}
+	return
 }
 
 func sameToks(a, b []lexer.Token) bool {
@@ -199,6 +253,46 @@ func checkC15(p *pue, c *c15Case, r *vstat.Run) outcome {
 			return violationf("ast-differs", "%s: entry point %q returns a different AST than ParseString", desc, e)
 		}
 	}
+	// a reader that has a Name: the explicit filename wins, the reader's name is the fallback for ""
+	{
+		eff := c.Filename
+		if eff == "" {
+			eff = fixtures.ReaderName
+		}
+		var want, got res
+		if m := guard(func() {
+			want.ast, want.err = p.parse("string", eff, in)
+			got.ast, got.err = p.parse("namedreader", c.Filename, in)
+		}); m == "" {
+			if errText(got.err) != errText(want.err) {
+				return violationf("error-differs", "%s: Parse(%q, reader named %q) returns error %q but ParseString(%q, ...) returns %q", desc, c.Filename, fixtures.ReaderName, errText(got.err), eff, errText(want.err))
+			}
+			if !reflect.DeepEqual(got.ast, want.ast) {
+				return violationf("ast-differs", "%s: Parse(%q, reader named %q) returns a different AST than ParseString(%q, ...)", desc, c.Filename, fixtures.ReaderName, eff)
+			}
+		}
+	}
+	// the entry points agree under AllowTrailing as well (options reach every entry point)
+	{
+		var rs [3]res
+		if m := guard(func() {
+			for i, e := range []string{"string", "bytes", "reader"} {
+				rs[i].ast, rs[i].err = p.parse(e, c.Filename, in, participle.AllowTrailing(true))
+			}
+		}); m == "" {
+			for i, e := range []string{"string", "bytes", "reader"} {
+				if errText(rs[i].err) != errText(rs[0].err) {
+					return violationf("error-differs", "%s: with AllowTrailing ParseString returns error %q but entry point %q returns %q", desc, errText(rs[0].err), e, errText(rs[i].err))
+				}
+				if !reflect.DeepEqual(rs[i].ast, rs[0].ast) {
+					return violationf("ast-differs", "%s: with AllowTrailing entry point %q returns a different AST than ParseString", desc, e)
+				}
+			}
+			if r != nil && rs[0].err == nil && base.err != nil {
+				r.Count("accepted_only_with_allow_trailing")
+			}
+		}
+	}
 	// Parser.Lex == tokens of the parser's definition; Lex / LexString / LexBytes agree
 	ptoks, perr := p.lex(c.Filename, in)
 	dtoks, derr, _ := drainDef(p.def, "reader", c.Filename, in)
@@ -212,6 +306,17 @@ func checkC15(p *pue, c *c15Case, r *vstat.Run) outcome {
 		}
 		if errText(err) != errText(derr) || (err == nil && !sameToks(toks, dtoks)) {
 			return violationf("lex-variants", "%s: the definition's Lex%s stream (%d tokens, err %v) differs from Lex(reader) (%d tokens, err %v)", desc, strings.Title(how), len(toks), err, len(dtoks), derr)
+		}
+	}
+	var ihows []string
+	var itoks [][]lexer.Token
+	var ierrs []error
+	if m := guard(func() { ihows, itoks, ierrs = drainInterleaved(p.def, c.Filename, in) }); m != "" {
+		return violationf("panic", "%s: lexers drained in turns panicked: %s", desc, m)
+	}
+	for i := range ihows {
+		if errText(ierrs[i]) != errText(derr) || (derr == nil && !sameToks(itoks[i], dtoks)) {
+			return violationf("lex-interleaved", "%s: %d lexers of the definition drained in turns: the %q lexer yields %d tokens, err %v; drained alone the stream has %d tokens, err %v", desc, len(ihows), ihows[i], len(itoks[i]), ierrs[i], len(dtoks), derr)
 		}
 	}
 	// ParseFromLexer over the parser's own token stream
@@ -334,6 +439,109 @@ func checkC15(p *pue, c *c15Case, r *vstat.Run) outcome {
 	return outcome{}
 }
 
+// checkC15Lex: a definition's Lex, LexString and LexBytes yield identical streams, for every input, also while
+// other lexers of the same definition (on other inputs) are alive and advanced in turns.
+func checkC15Lex(c *c15Case, def lexer.Definition, r *vstat.Run) outcome {
+	type stream struct {
+		toks []lexer.Token
+		err  error
+	}
+	var ins [][]byte
+	for _, h := range c.InputsHex {
+		b, _ := hexBytes(h)
+		ins = append(ins, b)
+	}
+	desc := func(i int) string { return fmt.Sprintf("input %q\n%s", ins[i], c.RS.String()) }
+	alone := make([]stream, len(ins))
+	var out outcome
+	if m := guard(func() {
+		for i, in := range ins {
+			t0, e0, _ := drainDef(def, "reader", c.Filename, in)
+			// alone, keeping the tokens in front of an error
+			if l, err := def.Lex(c.Filename, bytes.NewReader(in)); err != nil {
+				alone[i].err = err
+			} else {
+				for {
+					t, err := l.Next()
+					if err != nil {
+						alone[i].err = err
+						break
+					}
+					alone[i].toks = append(alone[i].toks, t)
+					if t.EOF() || len(alone[i].toks) > len(in)+2 {
+						break
+					}
+				}
+			}
+			for _, how := range []string{"string", "bytes"} {
+				t1, e1, ok := drainDef(def, how, c.Filename, in)
+				if ok && (errText(e1) != errText(e0) || !sameToks(t1, t0)) {
+					out = violationf("lex-variants", "Lex%s yields %d tokens, err %v; Lex(reader) yields %d tokens, err %v\n%s", strings.Title(how), len(t1), e1, len(t0), e0, desc(i))
+					return
+				}
+			}
+			if r != nil {
+				r.Eval()
+			}
+		}
+		// all lexers alive at once, entry points rotated, drained in turns and out of step
+		hows := []string{"reader"}
+		if _, ok := def.(lexer.StringDefinition); ok {
+			hows = append(hows, "string")
+		}
+		if _, ok := def.(lexer.BytesDefinition); ok {
+			hows = append(hows, "bytes")
+		}
+		hows = append(hows, "reader")
+		ls := make([]lexer.Lexer, len(ins))
+		got := make([]stream, len(ins))
+		done := make([]bool, len(ins))
+		for i, in := range ins {
+			var err error
+			switch hows[i%len(hows)] {
+			case "string":
+				ls[i], err = def.(lexer.StringDefinition).LexString(c.Filename, string(in))
+			case "bytes":
+				ls[i], err = def.(lexer.BytesDefinition).LexBytes(c.Filename, in)
+			default:
+				ls[i], err = def.Lex(c.Filename, bytes.NewReader(in))
+			}
+			if err != nil {
+				got[i].err, done[i] = err, true
+			}
+		}
+		for live := 1; live > 0; {
+			live = 0
+			for i, l := range ls {
+				for k := 0; k <= i%3 && !done[i]; k++ {
+					t, err := l.Next()
+					if err != nil {
+						got[i].err, done[i] = err, true
+						break
+					}
+					got[i].toks = append(got[i].toks, t)
+					if t.EOF() || len(got[i].toks) > len(ins[i])+2 {
+						done[i] = true
+					}
+				}
+				if !done[i] {
+					live++
+				}
+			}
+		}
+		for i := range ins {
+			if errText(got[i].err) != errText(alone[i].err) || !sameToks(got[i].toks, alone[i].toks) {
+				out = violationf("lex-interleaved", "%d lexers of one definition were alive and drained in turns; lexer %d (%s) yields %d tokens, err %v, but alone it yields %d tokens, err %v\n%s",
+					len(ins), i, hows[i%len(hows)], len(got[i].toks), got[i].err, len(alone[i].toks), alone[i].err, desc(i))
+				return
+			}
+		}
+	}); m != "" {
+		return violationf("panic", "lexing panicked: %s\n%s", m, c.RS.String())
+	}
+	return out
+}
+
 func hexBytes(h string) ([]byte, error) {
 	lc := lexCase{InputHex: h}
 	lc.fix()
@@ -344,7 +552,25 @@ func TestC15(t *testing.T) {
 	fxs := fixtures.All()
 	runProp(t, "C15", c15Rule, func(t *rapid.T, r *vstat.Run) {
 		filename := rapid.SampledFrom([]string{"f", "", "dir/x.cfg"}).Draw(t, "filename")
-		if rapid.IntRange(0, 9).Draw(t, "kind") <= 5 && len(fxs) > 0 {
+		kind := rapid.IntRange(0, 11).Draw(t, "kind")
+		if kind >= 10 {
+			// a lexer definition on its own: generated multi-state rule sets
+			g := lexgen.GenRuleSet(t, lexgen.RuleOpts{})
+			def, rej := newDef(g.RS)
+			if rej != "" {
+				r.Count("definition_rejected")
+				return
+			}
+			c := &c15Case{RS: g.RS, Filename: filename, Text: g.RS.String()}
+			for i, n := 0, rapid.IntRange(2, 5).Draw(t, "nlexers"); i < n; i++ {
+				c.InputsHex = append(c.InputsHex, fmt.Sprintf("%x", g.GenInput(t)))
+			}
+			r.Count("lexer_definition_cases")
+			r.NonTrivial(mustJSON(c), func() any { return c })
+			report(t, r, checkC15Lex(c, def, r), c)
+			return
+		}
+		if kind <= 5 && len(fxs) > 0 {
 			f := fxs[rapid.IntRange(0, len(fxs)-1).Draw(t, "fixture")]
 			var base []byte
 			if f.Nesting != nil && rapid.IntRange(0, 4).Draw(t, "nest?") == 0 {
@@ -388,6 +614,13 @@ func TestC15Replay(t *testing.T) {
 		var c c15Case
 		if err := json.Unmarshal(raw, &c); err != nil {
 			return violationf("harness", "bad replay: %v", err)
+		}
+		if c.RS != nil {
+			def, rej := newDef(c.RS)
+			if rej != "" {
+				return outcome{}
+			}
+			return checkC15Lex(&c, def, nil)
 		}
 		if c.G != nil {
 			var b *gram.Built
